@@ -1,5 +1,9 @@
 import Cfdm.Lemmas.Sharing
 import Cfdm.Lemmas.SharingRead
+import Cfdm.Lemmas.SharedProps
+import Cfdm.Lemmas.SharingScalar
+import Cfdm.Lemmas.SharingReadScalar
+import Cfdm.Lemmas.GroupProps
 /-
 C09 — fields sharing a file do not interfere with each other.
 
@@ -135,6 +139,22 @@ theorem C09_netcdfNameOld_counterexample :
     (writeAll [fErrA, fErrB]).vars.map (·.name) =
       ["longitude", "air_temperature_standard_error", "ta", "air_temperature_standard_error_1", "ua"] := by decide +kernel
 
+-- a field whose unnamed time coordinate sits on an axis that pins the netCDF dimension name `time`, written after a
+-- field that already has a (different, longer) coordinate variable `time`
+def timA : Cons := { kind := .dim, sig := 100, axes := [0], dflt := some "time" }
+def timB : Cons := { kind := .dim, sig := 101, axes := [0] }
+def fNamed : AField := { sig := 102, dflt := some "ta", axes := [{ size := 3 }], dataAxes := [0], cons := [timA] }
+def fUnnamed : AField := { sig := 103, dflt := some "ua", axes := [{ size := 2, ncdim := some "time" }], dataAxes := [0], cons := [timB] }
+
+/-- The code as it is takes the pinned dimension name for the coordinate variable (and its dimension) without asking
+`_netcdf_name`: with a variable of that name already in the dataset the write fails (`dup`; netCDF: "String match to
+name in use"), although either field can be written alone; patched, the name is made unique. -/
+theorem C09_dimension_nameOld_counterexample :
+    (writeAllOldDimName [fNamed, fUnnamed]).dup = true ∧ (writeAllOldDimName [fUnnamed]).dup = false ∧
+    (writeAll [fNamed, fUnnamed]).dup = false ∧
+    (writeAll [fNamed, fUnnamed]).vars.map (fun v => (v.name, v.dims)) =
+      [("time", ["time"]), ("ta", ["time"]), ("time_1", ["time_1"]), ("ua", ["time_1"])] := by decide +kernel
+
 /-! ## writer: dimension reuse -/
 
 /-- patched rule: a dimension already used by another axis of the field being written is never
@@ -243,6 +263,367 @@ theorem C09_formula_terms_overwrite_counterexample :
     (writeAll [fZ1, fZ2]).ftConflict = true ∧
     ((readAll [] (writeAll [fZ1]).file).map (fun f => f.refs.length)) = [1] ∧
     ((readAll [] (writeAll [fZ1, fZ2]).file).map (fun f => f.refs.length)) = [0, 1] := by decide +kernel
+
+-- the same coordinate, but no formula terms: written together with `fZ1` this field shares the coordinate variable …
+def fZ0 : AField := { sig := 82, dflt := some "va", axes := [{ size := 2 }, { size := 3 }], dataAxes := [0, 1], cons := [zc, gy] }
+
+/-- … and, for the same reason, a field WITHOUT formula terms whose vertical coordinate equals that of a field with
+formula terms is read back with the other field's coordinate reference (and its domain ancillaries), in either
+order (open finding write-formula-terms-acquired-through-shared-coordinate; `ftConflict` stays false: nothing is
+overwritten). -/
+theorem C09_formula_terms_acquired_counterexample :
+    ((readAll [] (writeAll [fZ0]).file).map (fun f => (f.refs.length, f.cons.length))) = [(0, 2)] ∧
+    ((readAll [] (writeAll [fZ0, fZ1]).file).map (fun f => (f.refs.length, f.cons.length))) = [(1, 3), (1, 3)] ∧
+    ((readAll [] (writeAll [fZ1, fZ0]).file).map (fun f => (f.refs.length, f.cons.length))) = [(1, 3), (1, 3)] ∧
+    (writeAll [fZ0, fZ1]).ftConflict = false := by decide +kernel
+
+/-! ## scalar coordinate variables and the names of the cell-method axes -/
+
+/-- **The cell-method axis of a field is named by the field's own scalar coordinate variable — created for it or
+shared with an earlier field**, for every list of fields written before (`pre`) and after (`post`): when field `f`
+(number `pre.length` of the dataset) has a scalar coordinate variable `n` for axis `a`
+(`axis_to_ncscalar[a] = n`), then (1) its `cell_methods` name the axis `n` — never the bare construct identifier,
+which is what a writer that records `axis_to_ncscalar` only when it *creates* the variable would emit for every
+field but the first —, (2) `n` is listed in the `coordinates` of the data variable, (3) `n` is the variable to which
+the field's own coordinate construct on that axis is linked in the final dataset, and (with `C09_own_content`) holds
+that construct's content, and (4) the data variable carrying these names is in the final dataset unchanged (up to
+`formula_terms`). -/
+theorem C09_cell_method_axis_is_own_scalar_coordinate (pre post : List AField) (f : AField) (a : Nat) (n : Name)
+    (h : lookupN (stage7 true (writeAll pre) f).2.1.axisScalar.reverse a = some n) :
+    (fieldVar true (writeAll pre) f).cms =
+        (if f.isDomain then [] else f.cms.map (fun c => (c.1.map (cmAxisName (stage7 true (writeAll pre) f).2.1), c.2))) ∧
+    cmAxisName (stage7 true (writeAll pre) f).2.1 (.inl a) = n ∧
+    n ∈ (fieldVar true (writeAll pre) f).coords ∧
+    (∃ key c, f.cons[key]? = some c ∧ c.axes.headD 0 = a ∧
+      (⟨pre.length, key, c.valAs (scalarKind c), n⟩ : Link) ∈ (writeAll (pre ++ f :: post)).links) ∧
+    (fieldVar true (writeAll pre) f).core ∈ (writeAll (pre ++ f :: post)).vars.map Var.core := by
+  obtain ⟨h1, h2, key, c, hk, ha, hl⟩ := cmAxisName_scalar true (writeAll pre) f a n h
+  refine ⟨rfl, h1, h2, ⟨key, c, hk, ha, ?_⟩, fieldVar_kept pre post f⟩
+  rw [writeAll_nf] at hl
+  exact (links_kept pre post f).subset hl
+
+-- non-vacuity: two fields with an equal scalar time coordinate (axis 1, not spanned by the data) and a cell method
+-- over it; the second field shares the variable `time` and names its cell-method axis `time` as well
+def tim : Cons := { kind := .dim, sig := 90, axes := [1], dflt := some "time" }
+def fT1 : AField := { sig := 91, dflt := some "ta", axes := [{ size := 3 }, { size := 1, inData := false }], dataAxes := [0],
+                      cons := [lon3, tim], cms := [([.inl 1], 5)] }
+def fT2 : AField := { sig := 92, dflt := some "ua", axes := [{ size := 3 }, { size := 1, inData := false }], dataAxes := [0],
+                      cons := [lon3, tim], cms := [([.inl 1], 6)] }
+
+example : lookupN (stage7 true (writeAll [fT1]) fT2).2.1.axisScalar.reverse 1 = some "time" ∧
+    ((writeAll [fT1, fT2]).vars.filter (·.isData)).map (fun v => (v.name, v.coords, v.cms)) =
+      [("ta", ["time"], [(["time"], 5)]), ("ua", ["time"], [(["time"], 6)])] ∧
+    ((writeAll [fT1, fT2]).vars.map (·.name)) = ["longitude", "time", "ta", "ua"] := by decide +kernel
+
+/-- **Reader**: whatever the dataset, every scalar coordinate variable known to the cell-method parser
+(`ncscalar_to_axis`) denotes a size-1 axis of the construct being created on which the coordinate read from that very
+variable sits — so a cell method written over `n` is read back over the axis of the coordinate stored in `n`,
+whichever identifier that axis had in the original. -/
+theorem C09_reader_scalar_axis_of_cell_method (F : File) (x : Var) (ac : List (Name × Bool)) (err : Bool) (n : Name) (i : Nat)
+    (h : lookup (readCoordsOf true F x ac err).scal.reverse n = some i) (m : Nat) :
+    readCMs x.ddims (readCoordsOf true F x ac err).scal [([n], m)] = [([.inl i], m)] ∧
+    (readCoordsOf true F x ac err).axes[i]? = some (1, none) ∧
+    ∃ c ∈ (readCoordsOf true F x ac err).cons, c.ncvar = n ∧ c.axes = [i] := by
+  have hm : (n, i) ∈ (readCoordsOf true F x ac err).scal := List.mem_reverse.mp (lookup_mem h)
+  obtain ⟨h1, h2⟩ := readCoordsOf_scalOk true F x ac err (n, i) hm
+  exact ⟨by simp [readCMs, h], h1, h2⟩
+
+example : ((readAll [] (writeAll [fT1, fT2]).file).map (fun f => (f.ncvar, f.axes.map (·.1)))) = [("ta", [3, 1]), ("ua", [3, 1])] ∧
+    ((readAll [] (writeAll [fT1, fT2]).file).map (fun f => f.cms.map (fun c => (c.1.map (fun a => a.getLeft?), c.2)))) =
+      [[([some 1], 5)], [([some 1], 6)]] := by
+  decide +kernel
+
+/-! ## properties of the fields: what becomes a netCDF global attribute, and what is read back
+
+Model: `Cfdm.Globals` (`NetCDFWrite._write_global_attributes(fields)`, `omit=` of the data variables; shared
+with C08) composed with the reader's `global_attributes.copy().update(variable attributes)`
+(`Cfdm.SharedProps.readBack o fs f p` = the value of property `p` of field `f` after
+`cfdm.write(fs, **o)`; `cfdm.read`).  Specification: the property text — "for each original exactly one
+equal construct, the same as if each had been written to a file of its own … the outcome does not depend on
+the order". -/
+section Properties
+open Cfdm.Globals Cfdm.SharedProps
+
+/-- **A property is promoted to a netCDF global attribute only if EVERY field of the dataset has it, with
+one and the same value** (whatever `global_attributes=`, `variable_attributes=`, `file_descriptors=` and
+the `nc_set_global_attribute` flags are, and whichever field comes first). -/
+theorem C09_global_only_if_every_field_equal (o : Opts) (fs : List FieldG) (p : String) (h : p ∈ globalSet o fs) :
+    ∃ v, ∀ f ∈ fs, lookup p f.props = some v := by
+  obtain ⟨v, _, hv⟩ := globalSet_all o fs p h
+  exact ⟨v, hv⟩
+
+/-- **Every property of every field comes back with the field's own value**: never dropped, never
+replaced by another field's value or by a file descriptor / forced global value of that name. -/
+theorem C09_own_properties_read_back (o : Opts) (fs : List FieldG) (f : FieldG) (hf : f ∈ fs) (p : String) (v : Val)
+    (hp : p ≠ "Conventions") (h : lookup p f.props = some v) : readBack o fs f p = some v := by
+  unfold readBack readLookup
+  rw [lookup_variableAttrs]
+  by_cases hg : p ∈ globalSet o fs
+  · simp only [hg, if_true]
+    obtain ⟨w, hne, hw⟩ := globalSet_all o fs p hg
+    have : w = v := by have := hw f hf; rw [h] at this; injection this with this; exact this.symm
+    subst this
+    exact lookup_writtenGlobals_global hp hg ⟨hne, hw⟩
+  · simp only [hg, if_false, h]
+
+/-- **No field inherits a property from another field**: a field that lacks property `p` is read back with
+`p` only when the caller asked for a dataset-wide attribute of that name (`file_descriptors=`, or every
+field forces the same global value with `nc_set_global_attribute(p, value)`) — whatever the other fields'
+properties are. -/
+theorem C09_no_property_inherited (o : Opts) (fs : List FieldG) (f : FieldG) (hf : f ∈ fs) (p : String)
+    (h : lookup p f.props = none) :
+    readBack o fs f p = lookup p (o.fileDesc ++ (forceKept o fs).filter (·.1 != "Conventions")) := by
+  unfold readBack readLookup
+  rw [lookup_variableAttrs]
+  have hg : p ∉ globalSet o fs := by
+    intro hg
+    obtain ⟨w, _, hw⟩ := globalSet_all o fs p hg
+    have := hw f hf
+    rw [h] at this; cases this
+  simp only [hg, if_false, h]
+  exact lookup_writtenGlobals_other hg
+
+/-- **The same as in a file of its own**: when no field forces a global attribute *value*, every property
+(but `Conventions`, which the writer sets itself) of every field is read back from the shared dataset
+exactly as from the dataset that holds this field alone. -/
+theorem C09_properties_separate (o : Opts) (fs : List FieldG) (hnf : NoForced fs) (f : FieldG) (hf : f ∈ fs)
+    (p : String) (hp : p ≠ "Conventions") : readBack o fs f p = readBack o [f] f p := by
+  have noForce : ∀ gs : List FieldG, NoForced gs → (forceKept o gs).filter (·.1 != "Conventions") = [] := by
+    intro gs hn
+    rw [List.filter_eq_nil_iff]
+    intro kv hkv
+    obtain ⟨k, v⟩ := kv
+    obtain ⟨⟨hne, hall⟩, _⟩ := mem_forceKept.mp hkv
+    obtain ⟨g, hg⟩ := List.exists_mem_of_ne_nil gs hne
+    have := hn g hg (k, some v) (lookup_some_mem (hall g hg))
+    cases this
+  have hnf1 : NoForced [f] := by
+    intro g hg
+    rw [List.mem_singleton] at hg
+    subst hg
+    exact hnf g hf
+  cases h : lookup p f.props with
+  | some v =>
+    rw [C09_own_properties_read_back o fs f hf p v hp h,
+        C09_own_properties_read_back o [f] f (by simp) p v hp h]
+  | none =>
+    rw [C09_no_property_inherited o fs f hf p h, C09_no_property_inherited o [f] f (by simp) p h,
+        noForce fs hnf, noForce [f] hnf1]
+
+/-- **Order independence**: for any permutation of the field list, every field is read back with the same
+properties … -/
+theorem C09_properties_order_independent (o : Opts) (fs fs' : List FieldG) (hperm : fs.Perm fs') (f : FieldG)
+    (hf : f ∈ fs) (p : String) (hp : p ≠ "Conventions") : readBack o fs f p = readBack o fs' f p := by
+  have hf' : f ∈ fs' := hperm.mem_iff.mp hf
+  cases h : lookup p f.props with
+  | some v =>
+    rw [C09_own_properties_read_back o fs f hf p v hp h, C09_own_properties_read_back o fs' f hf' p v hp h]
+  | none =>
+    rw [C09_no_property_inherited o fs f hf p h, C09_no_property_inherited o fs' f hf' p h,
+        lookup_append, lookup_append, lookup_forceKept_perm hperm]
+
+/-- … so the two datasets read back to the same multiset of property sets. -/
+theorem C09_properties_order_multiset (o : Opts) (fs fs' : List FieldG) (hperm : fs.Perm fs') :
+    (fs.map (obs o fs)).Perm (fs'.map (obs o fs')) := by
+  have h1 : fs.map (obs o fs) = fs.map (obs o fs') := by
+    apply List.map_congr_left
+    intro f hf
+    funext p
+    unfold obs
+    by_cases hp : p = "Conventions"
+    · simp [hp]
+    · simp only [hp, if_false]
+      exact C09_properties_order_independent o fs fs' hperm f hf p hp
+  rw [h1]
+  exact hperm.map _
+
+-- non-vacuity: three fields; `comment` on all with one value (global), `history` on the first only
+-- (stays a variable attribute: the third field must not inherit it), `title` with two values, a
+-- flagged free name on two of three, a file descriptor
+def gO : Opts := { descr := ["comment", "Conventions", "featureType", "history", "institution", "references", "source", "title"],
+                   fileDesc := [("institution", "I")] }
+def gF1 : FieldG := { props := [("comment", "c"), ("history", "h"), ("title", "t1"), ("project", "P")], ncg := [("project", none)] }
+def gF2 : FieldG := { props := [("comment", "c"), ("title", "t2"), ("project", "P")], ncg := [("project", none)] }
+def gF3 : FieldG := { props := [("comment", "c"), ("title", "t1")], ncg := [] }
+
+example : globalSet gO [gF1, gF2, gF3] = ["comment"] ∧ NoForced [gF1, gF2, gF3] ∧
+    readBackProps gO [gF1, gF2, gF3] gF3 = [("title", "t1"), ("institution", "I"), ("comment", "c")] ∧
+    readBackProps gO [gF3, gF2, gF1] gF3 = [("title", "t1"), ("institution", "I"), ("comment", "c")] ∧
+    readBackProps gO [gF3] gF3 = [("institution", "I"), ("comment", "c"), ("title", "t1")] ∧
+    readBack gO [gF1, gF2, gF3] gF3 "history" = none ∧ readBack gO [gF1, gF2, gF3] gF1 "history" = some "h" ∧
+    [gF1, gF2, gF3].Perm [gF3, gF2, gF1] :=
+  ⟨by decide, by decide, by decide, by decide, by decide, by decide, by decide,
+   (List.Perm.swap _ _ _).trans ((List.Perm.cons _ (List.Perm.swap _ _ _)).trans (List.Perm.swap _ _ _))⟩
+
+/-- `NoForced` cannot be dropped from `C09_properties_separate`: a global attribute value forced by one field
+(`nc_set_global_attribute("project", "X")`) is written when that field is alone in the dataset — and then
+read back as a property of the field — but is silently not written at all when another field of the
+dataset does not force the same value (as the code has it: `len(v) == len(fields)`; recorded as open
+finding write-forced-global-value-dropped-when-another-construct-lacks-it). -/
+theorem C09_forced_global_counterexample :
+    let a : FieldG := { props := [("standard_name", "ta")], ncg := [("project", some "X")] }
+    let b : FieldG := { props := [("standard_name", "ua")], ncg := [] }
+    readBack gO [a] a "project" = some "X" ∧ readBack gO [a, b] a "project" = none ∧
+    readBack gO [b, a] a "project" = none := by decide
+
+/-- "EVERY field" cannot be weakened to "no field that has the property contradicts the first field" (a
+loop that skips fields lacking the property): under that rule the outcome depends on the order, and a field
+without `history` inherits the `history` of the field given first. -/
+theorem C09_global_skip_rule_counterexample :
+    readBackSkip gO [gF1, gF3] gF3 "history" = some "h" ∧ readBackSkip gO [gF3, gF1] gF3 "history" = none ∧
+    readBack gO [gF1, gF3] gF3 "history" = none ∧ readBack gO [gF3, gF1] gF3 "history" = none := by decide
+
+end Properties
+
+section GroupProperties
+open Cfdm.Globals Cfdm.SharedProps Cfdm.GroupProps
+
+/-- **Datasets with groups, every property of every field comes back with the field's own value** (the writer
+with fixes/C09-group-attribute-placement.patch; flags only): whatever is flagged as a group or global attribute by
+this or another field, in the same group, a sub-group, an enclosing group or elsewhere. -/
+theorem C09_group_own_properties_read_back (o : Opts) (fs : List GField) (hno : NoGroupValues fs) (f : GField) (hf : f ∈ fs)
+    (p : String) (v : Val) (hp : p ≠ "Conventions") (h : lookup p f.base.props = some v) :
+    GroupProps.readBack true o fs f p = some v := by
+  have hglobal : p ∈ globalSet o (bases fs) → lookup p (writtenGlobals o (bases fs)) = some v := by
+    intro hg
+    obtain ⟨w, hne, hw⟩ := globalSet_all o (bases fs) p hg
+    have : w = v := by have := hw f.base (mem_bases hf); rw [h] at this; injection this with this; exact this.symm
+    subst this
+    exact lookup_writtenGlobals_global hp hg ⟨hne, hw⟩
+  unfold GroupProps.readBack
+  rw [lookup_varAttrs]
+  cases homit : omits true o fs f p with
+  | false => simp [h]
+  | true =>
+    simp only [if_true]
+    cases hin : inherited true fs f.path p with
+    | some w => simp only; rw [inherited_own hno hf h hin]
+    | none =>
+      simp only
+      unfold omits at homit
+      simp only [List.contains_eq_mem, Bool.not_true, Bool.false_or] at homit
+      split at homit
+      · exact hglobal (by simpa using homit)
+      · rename_i hne
+        simp only [Bool.or_eq_true, Bool.and_eq_true, decide_eq_true_eq] at homit
+        rcases homit with hg | hg
+        · exact hglobal hg.1
+        · -- the group attribute of the field's own group was written: it is inherited
+          exfalso
+          have hpath : f.path ≠ [] := by
+            intro e; simp [e] at hne
+          unfold inherited at hin
+          rw [List.findSome?_eq_none_iff] at hin
+          have := hin f.path (List.mem_reverse.mpr (self_mem_enclosing hpath))
+          rw [this] at hg
+          simp at hg
+
+/-- **… and no field inherits a property it does not have** from a field of its group, of an enclosing group or
+of any other group: it is read back with `p` only through `file_descriptors=` or a global value forced by every
+field. -/
+theorem C09_group_no_property_inherited (o : Opts) (fs : List GField) (f : GField) (hf : f ∈ fs) (p : String)
+    (h : lookup p f.base.props = none) :
+    GroupProps.readBack true o fs f p = lookup p (o.fileDesc ++ (forceKept o (bases fs)).filter (·.1 != "Conventions")) := by
+  unfold GroupProps.readBack
+  rw [lookup_varAttrs, inherited_none hf h]
+  have hg : p ∉ globalSet o (bases fs) := by
+    intro hg
+    obtain ⟨w, _, hw⟩ := globalSet_all o (bases fs) p hg
+    have := hw f.base (mem_bases hf)
+    rw [h] at this; cases this
+  have : (if omits true o fs f p = true then none else lookup p f.base.props) = none := by
+    split
+    · rfl
+    · exact h
+  rw [this]
+  exact lookup_writtenGlobals_other hg
+
+/-- For fields outside any group the model with groups is the model without: the theorems of the previous
+section are about what the driver evaluates. -/
+theorem C09_group_model_extends_flat (patched : Bool) (o : Opts) (fs : List GField) (f : GField) (hf : f.path = []) (p : String) :
+    GroupProps.readBack patched o fs f p = SharedProps.readBack o (bases fs) f.base p := by
+  have hv : GroupProps.varAttrs patched o fs f = variableAttrs o (bases fs) f.base := by
+    unfold GroupProps.varAttrs variableAttrs omits
+    simp [hf]
+  have hi : inherited patched fs f.path p = none := by
+    unfold inherited enclosing
+    simp [hf]
+  unfold GroupProps.readBack SharedProps.readBack readLookup
+  rw [hv, hi]
+  cases Globals.lookup p (variableAttrs o (bases fs) f.base) <;> rfl
+
+-- a field of group /m that flags its `comment` as a group attribute, a field of /m without `comment`, a field of /m/sub
+-- without it, and a field of /m with the same comment
+def gA : GField := { base := { props := [("standard_name", "ta"), ("comment", "c1")], ncg := [] }, path := ["m"], gattrs := [("comment", none)] }
+def gB : GField := { base := { props := [("standard_name", "ua")], ncg := [] }, path := ["m"] }
+def gS : GField := { base := { props := [("standard_name", "va")], ncg := [] }, path := ["m", "sub"] }
+def gC : GField := { base := { props := [("standard_name", "wa"), ("comment", "c1")], ncg := [] }, path := ["m"] }
+def gOpt : Opts := { descr := ["title"] }
+
+example : NoGroupValues [gA, gB, gS, gC] ∧ groupAttr true [gA, gC] ["m"] "comment" = some "c1" ∧
+    varAttrs true gOpt [gA, gC] gA = [("standard_name", "ta")] ∧ GroupProps.readBack true gOpt [gA, gC] gA "comment" = some "c1" ∧
+    GroupProps.readBack true gOpt [gA, gB] gA "comment" = some "c1" ∧ GroupProps.readBack true gOpt [gA, gS] gS "comment" = none := by
+  decide
+
+/-- The code as it is (no patch applied): (1) the flagged property is omitted from the data variable although the
+group attribute is not written because another field of the group lacks it — the property is **lost**, in either
+order; (2) the field of the sub-group is not consulted and **inherits** the comment.  With the patch both are read
+back as written, as from a file of their own. -/
+theorem C09_group_attribute_old_counterexample :
+    GroupProps.readBack false gOpt [gA, gB] gA "comment" = none ∧ GroupProps.readBack false gOpt [gB, gA] gA "comment" = none ∧
+    GroupProps.readBack false gOpt [gA] gA "comment" = some "c1" ∧
+    GroupProps.readBack false gOpt [gA, gS] gS "comment" = some "c1" ∧ GroupProps.readBack false gOpt [gS] gS "comment" = none ∧
+    GroupProps.readBack true gOpt [gA, gB] gA "comment" = some "c1" ∧ GroupProps.readBack true gOpt [gA, gS] gS "comment" = none := by
+  decide
+
+/-- **Order independence with groups** (patched writer, flags only): for any permutation of the field list every
+field is read back with the same properties. -/
+theorem C09_group_properties_order_independent (o : Opts) (fs fs' : List GField) (hperm : fs.Perm fs') (hno : NoGroupValues fs)
+    (f : GField) (hf : f ∈ fs) (p : String) (hp : p ≠ "Conventions") :
+    GroupProps.readBack true o fs f p = GroupProps.readBack true o fs' f p := by
+  have hf' : f ∈ fs' := hperm.mem_iff.mp hf
+  have hno' : NoGroupValues fs' := fun g hg => hno g (hperm.mem_iff.mpr hg)
+  have hb : (bases fs).Perm (bases fs') := hperm.map _
+  cases h : lookup p f.base.props with
+  | some v =>
+    rw [C09_group_own_properties_read_back o fs hno f hf p v hp h, C09_group_own_properties_read_back o fs' hno' f hf' p v hp h]
+  | none =>
+    rw [C09_group_no_property_inherited o fs f hf p h, C09_group_no_property_inherited o fs' f hf' p h,
+        lookup_append, lookup_append, lookup_forceKept_perm hb]
+
+/-- **The same as in a file of its own, with groups** (patched writer, flags only, no forced global values). -/
+theorem C09_group_properties_separate (o : Opts) (fs : List GField) (hno : NoGroupValues fs) (hnf : NoForced (bases fs))
+    (f : GField) (hf : f ∈ fs) (p : String) (hp : p ≠ "Conventions") :
+    GroupProps.readBack true o fs f p = GroupProps.readBack true o [f] f p := by
+  have hno1 : NoGroupValues [f] := by
+    intro g hg; rw [List.mem_singleton] at hg; subst hg; exact hno g hf
+  have noForce : ∀ gs : List FieldG, NoForced gs → (forceKept o gs).filter (·.1 != "Conventions") = [] := by
+    intro gs hn
+    rw [List.filter_eq_nil_iff]
+    intro kv hkv
+    obtain ⟨k, v⟩ := kv
+    obtain ⟨⟨hne, hall⟩, _⟩ := mem_forceKept.mp hkv
+    obtain ⟨g, hg⟩ := List.exists_mem_of_ne_nil gs hne
+    have := hn g hg (k, some v) (lookup_some_mem (hall g hg))
+    cases this
+  have hnf1 : NoForced (bases [f]) := by
+    intro g hg
+    simp only [bases, List.map_cons, List.map_nil, List.mem_singleton] at hg
+    subst hg
+    exact hnf f.base (mem_bases hf)
+  cases h : lookup p f.base.props with
+  | some v =>
+    rw [C09_group_own_properties_read_back o fs hno f hf p v hp h,
+        C09_group_own_properties_read_back o [f] hno1 f (by simp) p v hp h]
+  | none =>
+    rw [C09_group_no_property_inherited o fs f hf p h, C09_group_no_property_inherited o [f] f (by simp) p h,
+        noForce _ hnf, noForce _ hnf1]
+
+example : [gA, gB, gS].Perm [gS, gB, gA] ∧ NoGroupValues [gA, gB, gS] ∧ NoForced (bases [gA, gB, gS]) ∧
+    GroupProps.readBack true gOpt [gA, gB, gS] gA "comment" = some "c1" ∧ GroupProps.readBack true gOpt [gS, gB, gA] gA "comment" = some "c1" :=
+  ⟨(List.Perm.swap _ _ _).trans ((List.Perm.cons _ (List.Perm.swap _ _ _)).trans (List.Perm.swap _ _ _)), by decide, by decide, by decide, by decide⟩
+
+end GroupProperties
 
 /-! ## separation and order (partial) -/
 
